@@ -16,7 +16,7 @@ func run(t *testing.T, part string, n int) {
 	r.Assume("guard revisions are >= 1 (0 is the API's internal 'no guard' value)", "the same pointer is never re-inserted", "DeleteAll through a finished handle is not exercised (the statement excludes it)")
 	r.Require("return_value_checks", "commits", "aborts")
 	r.ParallelCases(n, vkit.Workers(), func(i int) {
-		dbsim.RunPlain(r, i, dbsim.Opts{Tables: 3, Txns: 16, MaxOps: 12, ProbesPerIndex: 2, AbortPct: 25,
+		dbsim.RunPlain(r, i, dbsim.Opts{Tables: 3, Txns: 16, MaxOps: 12, ProbesPerIndex: 2, AbortPct: 25, Initializers: true,
 			Report: map[string]bool{"ret": true, "query": true, "abort": true}},
 			func(s *dbsim.Sim) bool { return s.RetChecks() >= 5 && s.Commits() > 0 })
 	})
@@ -55,7 +55,8 @@ func TestVerif_OpsIterators(t *testing.T) {
 	r := vkit.Start(t, "C03", "ops-iterators", "exploration", rule+" (variant: change iterators are created, read and closed between and inside the transactions, directed delete / close-last-iterator / re-insert / new-iterator / delete sequences included)")
 	r.Require("return_value_checks", "commits")
 	dbsim.BubbleCases(t, r, vkit.N(800, 40000), dbsim.Opts{Tables: 2, Txns: 60, MaxOps: 6, ProbesPerIndex: 1, AbortPct: 20, Iterators: true, Retain: 2,
-		Report: map[string]bool{"ret": true, "query": true, "abort": true, "panic": true}},
+		// a rejected operation changes nothing - not the record of an earlier deletion either, which only a change iterator shows
+		Report: map[string]bool{"ret": true, "query": true, "abort": true, "panic": true, "changes/deletion-not-delivered": true, "changes/replay-differs": true}},
 		func(s *dbsim.Sim) bool { return s.RetChecks() >= 5 && s.Commits() > 0 })
 	r.Finish()
 }
